@@ -434,7 +434,9 @@ func (e *BinaryOpExpr) execInBatch(chunk []KVPair, number bool, ctx *ExecuteCtx)
 					cmp, err = execStringCompare(left, lval, "=")
 				}
 				if err != nil {
-					return nil, err
+					// Same as the row form: an element of another type
+					// than the left value is no match, not an error
+					break
 				}
 				if cmp {
 					cmpRet = true
